@@ -9,7 +9,7 @@ MODULES = ["Meta", "MCMeta", "MetaTrace"]
 FEATURES = ("x-meta",)
 
 MC_INVS = ["InvC17", "InvC17Table", "InvC17Borrow", "InvC17Iter"]
-TRACE_INVS = ["InvC17TrGet", "InvC17TrNext", "InvC17TrBorrow", "InvC17TrVal"]
+TRACE_INVS = ["InvC17TrReg", "InvC17TrGet", "InvC17TrNext", "InvC17TrBorrow", "InvC17TrVal"]
 
 
 def tla_set(xs):
